@@ -23,7 +23,7 @@ func raceCheck(sp *spec, tier string, envSeed uint64, budget float64) int {
 	if budget == 0 {
 		budget = 40
 		if tier == "thorough" {
-			budget = 1200
+			budget = 600
 		}
 	}
 	t0 := time.Now()
@@ -209,7 +209,9 @@ func raceCheck(sp *spec, tier string, envSeed uint64, budget float64) int {
 	for i, t := range earlyTails {
 		fmt.Printf("note: a race-test process exited before its budget was used (%d such exits); last lines of #%d:\n%s\n", totals["process_early_exits"], i+1, t)
 	}
-	if totals["process_early_exits"] > int64(procs)*4 {
+	if totals["process_early_exits"] > int64(procs)*4 && len(reports) == 0 {
+		// (With race reports in hand early exits are expected: a racy map access is a fatal
+		// runtime error, and the reports decide.)
 		infra("race-test processes keep exiting early (%d times)", totals["process_early_exits"])
 	}
 	// Verdict.
